@@ -17,6 +17,15 @@
    dimension of the target format of a Convert; the name "ExtraBytes" a truncated Reread introduces is new and at most
    255 bytes stay un-registered (laspy fails inside numpy on a duplicate name
    after the header was already changed — DESIGN section 6, observation 13 — so nothing is claimed there).
+   Round 4 — several live objects.  `select s idx` is las[idx] (index list / array / integer with numpy's rule for negative
+   entries; a slice or mask is the list of positions it selects): a LasData with a deep copy of the header and the selected
+   records.  A `world` is the LasData the history works on plus every other LasData that is alive (the ones it was
+   selected / copied / converted / read from, and the ones selected or copied from it); world operations: WOp o (an
+   operation on the current one), WNew o (the operation returns a LasData — round trip, convert, re-read —, the old one
+   stays alive), WSelect, WCopy.  Every live object satisfies the invariant after any history and no step reaches an
+   object other than the current one (C13_all_live_objects, C13_other_objects_untouched); the correspondence check
+   compares every live object of the implementation with the world at the end of each history, the oracle observes them
+   after every step.
    Add also requires legal parameters (edim_okb: one of the 30 types, scaled or not, or an opaque array of 4..255
    bytes; name of 1..32 bytes, description of 0..32 bytes, no NUL); an Add outside that domain is refused by the model
    and is not compared with the implementation. *)
@@ -268,6 +277,59 @@ Theorem C13_set_points_mismatch : forall s ex recs std, std_size (st_fmt s) = So
 Proof. exact set_points_mismatch. Qed.
 Print Assumptions C13_set_points_mismatch.
 
+(* las[idx]: the selection has the point format, the extra dimensions and the VLRs of the LasData it is taken from and,
+   entry by entry, the record the index designates (i, or i + n for a negative i); it satisfies the invariants of its
+   parent — so every theorem above applies to the histories that start from a selection *)
+Theorem C13_selection : forall s idx s', select s idx = Ok s' ->
+  st_fmt s' = st_fmt s /\ st_extras s' = st_extras s /\ st_vlrs s' = st_vlrs s
+  /\ Forall2 (fun i r => exists j, norm_index (len (st_recs s)) i = Some j /\ nth_error (st_recs s) (Z.to_nat j) = Some r) idx (st_recs s')
+  /\ (Inv2 s -> Inv2 s') /\ (Inv s -> Inv s').
+Proof. exact select_ok. Qed.
+Print Assumptions C13_selection.
+
+Theorem C13_selection_in_range : forall s idx, (forall i, In i idx -> - len (st_recs s) <= i < len (st_recs s)) ->
+  exists s', select s idx = Ok s'.
+Proof. exact select_in_range. Qed.
+Print Assumptions C13_selection_in_range.
+
+Theorem C13_selection_out_of_range : forall s idx, (exists i, In i idx /\ ~ (- len (st_recs s) <= i < len (st_recs s))) ->
+  select s idx = Err EIndex.
+Proof. exact select_out_of_range. Qed.
+Print Assumptions C13_selection_out_of_range.
+
+(* several live objects: after any history — adds, removes, assignments, round trips, conversions, re-reads, with any
+   number of selections and copies in it, continued on the new object or on the old one — EVERY live LasData satisfies the
+   invariant (its own record length = standard + its own extra bytes, its own extra-bytes VLR) ... *)
+Theorem C13_all_live_objects : forall ops w, WInv w -> wops_okb w ops = true -> WInv (wrun w ops).
+Proof. exact wrun_inv. Qed.
+Print Assumptions C13_all_live_objects.
+
+(* ... and no step reaches an object other than the current one: the other live objects stay exactly what they were (format,
+   dimensions, every byte of every record, VLRs), a step only ever appends the object it leaves behind *)
+Theorem C13_other_objects_untouched : forall ops w, exists new, w_others (wrun w ops) = w_others w ++ new.
+Proof. exact wrun_others_kept. Qed.
+Print Assumptions C13_other_objects_untouched.
+
+Theorem C13_other_object_unchanged : forall ops w k s, nth_error (w_others w) k = Some s ->
+  nth_error (w_others (wrun w ops)) k = Some s.
+Proof. exact wrun_other_unchanged. Qed.
+Print Assumptions C13_other_object_unchanged.
+
+(* a world history without selections / copies is a history of the single-object model (so C13_inv ... C13_roundtrip speak
+   about the current object of a world), with the same hypothesis on names *)
+Theorem C13_world_current : forall ops w, wrun w (map WOp ops) = mkW (run (w_cur w) ops) (w_others w).
+Proof. exact wrun_plain. Qed.
+Print Assumptions C13_world_current.
+
+Theorem C13_world_hypothesis : forall ops w, wops_okb w (map WOp ops) = ops_okb (w_cur w) ops.
+Proof. exact wops_okb_plain. Qed.
+Print Assumptions C13_world_hypothesis.
+
+(* a refused selection (IndexError) or a failed returning operation leaves the whole world as it was *)
+Theorem C13_failed_world_step : forall w o, snd (wstep w o) <> Ok tt -> (forall o', o <> WOp o') -> fst (wstep w o) = w.
+Proof. exact wstep_failed. Qed.
+Print Assumptions C13_failed_world_step.
+
 (* a concrete history on point format 0, two records: add a scaled 3 x float64, an opaque 10-byte array (size with
    bit 3 set) and a uint64; assign 2^53+1 and 2^64-1; remove the middle one; refused removals (unknown, standard, a
    name given twice) change nothing; round trip; remove everything: no extra-bytes VLR is left *)
@@ -316,6 +378,17 @@ Example C13_nonvacuous :
       /\ st_extras (run s4 [Add [B]]) = [A; unreg 8; B]
       /\ map (fun v => (v_rid v, len (v_data v))) (st_vlrs (run s4 [Add [B]])) = [(7, 3); (4, 576)]
       /\ st_extras (run s1 [Reread None]) = [unreg 32] /\ st_vlrs (run s1 [Reread None]) = [foreign])
+  (* several live objects: sel = las[[1, -2]] (the second record, then the first), the history goes on with sel: add B, make
+     a copy, remove a; las (two dimensions, 52-byte records) and the copy (three dimensions) stay what they were *)
+  /\ (let w := wrun (mkW s1 []) [WSelect true [1; -2]; WOp (Add [B]); WCopy; WOp (Remove [[97]]); WNew RoundTrip] in
+      wops_okb (mkW s1 []) [WSelect true [1; -2]; WOp (Add [B]); WCopy; WOp (Remove [[97]]); WNew RoundTrip] = true
+      /\ map (fun s => extra_names (st_extras s)) (w_others w) = [[[97]; [99]]; [[97]; [99]; [98; 98]]; [[99]; [98; 98]]]
+      /\ nth_error (w_others w) 0 = Some s1
+      /\ extra_names (st_extras (w_cur w)) = [[99]; [98; 98]]
+      /\ map (fun r => fst r) (st_recs (w_cur w)) = [repeat 2 20%nat; repeat 1 20%nat]
+      /\ map (field_of [99]) (st_recs (w_cur w)) = map Some (rev big)
+      /\ map (fun s => map (fun r => len (rec_bytes r)) (st_recs s)) (w_others w) = [[52; 52]; [62; 62]; [38; 38]]
+      /\ snd (wstep (mkW s1 []) (WSelect false [2])) = Err EIndex)
   (* a LasData made from a format that already has the two dimensions: the VLR is there, before the foreign one *)
   /\ (match init_ex 0 [A; C] [repeat 3 52%nat] [foreign] false with
       | Ok s5 => map (fun v => (v_rid v, len (v_data v))) (st_vlrs s5) = [(4, 384); (7, 3)]
